@@ -112,3 +112,696 @@ Section Sem.
         destruct (B e1) as [x|], (B e2) as [y|]; try reflexivity; destruct x, y; reflexivity.
   Qed.
 End Sem.
+
+(* the value form: an expression that evaluates to a Boolean keeps that value *)
+Lemma nnf_equiv_bv sc I e : bv sc I (nnf e) = bv sc I e.
+Proof. unfold nnf. rewrite nnf_pol_sem. destruct (bv sc I e); reflexivity. Qed.
+
+Lemma nnf_equiv sc e I : as_bool (eval sc (nnf e) I) = as_bool (eval sc e I).
+Proof. exact (nnf_equiv_bv sc I e). Qed.
+
+Lemma nnf_equiv_defined sc e I b : eval sc e I = Some (VBool b) -> eval sc (nnf e) I = Some (VBool b).
+Proof. rewrite <- !bv_Some, nnf_equiv_bv. trivial. Qed.
+
+(* ------------------------------------------------------------------ shape of the NNF *)
+Lemma nnf_shape_EAnd l : nnf_shape (EAnd l) = forallb nnf_shape l.
+Proof. reflexivity. Qed.
+Lemma nnf_shape_EOr l : nnf_shape (EOr l) = forallb nnf_shape l.
+Proof. reflexivity. Qed.
+
+Lemma nnf_shape_mkAnd l : forallb nnf_shape l = true -> nnf_shape (mkAnd l) = true.
+Proof.
+  destruct l as [|x [|y l]]; intros H; [reflexivity| |exact H].
+  cbn [forallb] in H. rewrite andb_true_r in H. exact H.
+Qed.
+
+Lemma nnf_shape_mkOr l : forallb nnf_shape l = true -> nnf_shape (mkOr l) = true.
+Proof.
+  destruct l as [|x [|y l]]; intros H; [reflexivity| |exact H].
+  cbn [forallb] in H. rewrite andb_true_r in H. exact H.
+Qed.
+
+Lemma nnf_shape_andp p l : forallb nnf_shape l = true -> nnf_shape (andp p l) = true.
+Proof. destruct p; [apply nnf_shape_mkAnd | apply nnf_shape_mkOr]. Qed.
+Lemma nnf_shape_orp p l : forallb nnf_shape l = true -> nnf_shape (orp p l) = true.
+Proof. destruct p; [apply nnf_shape_mkOr | apply nnf_shape_mkAnd]. Qed.
+
+Lemma forallb_map_Forall (f : expr -> expr) l :
+  Forall (fun e => nnf_shape (f e) = true) l -> forallb nnf_shape (map f l) = true.
+Proof. induction 1 as [|x l Hx _ IH]; [reflexivity|]. cbn [map forallb]. rewrite Hx, IH. reflexivity. Qed.
+
+Lemma nnf_pol_shape : forall e p, nnf_shape (nnf_pol p e) = true.
+Proof.
+  induction e using expr_ind'; intros pl; try (destruct pl; reflexivity).
+  - cbn [nnf_pol]. apply nnf_shape_andp, forallb_map_Forall.
+    eapply Forall_impl; [|exact H]. intros a Ha. apply Ha.
+  - cbn [nnf_pol]. apply nnf_shape_orp, forallb_map_Forall.
+    eapply Forall_impl; [|exact H]. intros a Ha. apply Ha.
+  - cbn [nnf_pol]. apply IHe.
+  - cbn [nnf_pol]. apply nnf_shape_orp. cbn [forallb]. rewrite IHe1, IHe2. reflexivity.
+  - cbn [nnf_pol]. apply nnf_shape_orp. cbn [forallb].
+    rewrite !nnf_shape_andp; [reflexivity| |]; cbn [forallb]; rewrite ?IHe1, ?IHe2; reflexivity.
+Qed.
+
+Lemma nnf_is_nnf e : nnf_shape (nnf e) = true.
+Proof. apply nnf_pol_shape. Qed.
+
+(* ================================================================== DNF: semantics *)
+Lemma forallb_map_id (f : expr -> bool) l : forallb (fun b => b) (map f l) = forallb f l.
+Proof. induction l as [|x l IH]; simpl; [|rewrite IH]; reflexivity. Qed.
+Lemma existsb_map_id (f : expr -> bool) l : existsb (fun b => b) (map f l) = existsb f l.
+Proof. induction l as [|x l IH]; simpl; [|rewrite IH]; reflexivity. Qed.
+
+Lemma is_true_eq a : is_true a = true -> a = EBool true.
+Proof. destruct a; try discriminate. destruct b; [reflexivity|discriminate]. Qed.
+Lemma is_false_eq a : is_false a = true -> a = EBool false.
+Proof. destruct a; try discriminate. destruct b; [discriminate|reflexivity]. Qed.
+
+Lemma mem_expr_In x l : mem_expr x l = true -> In x l.
+Proof.
+  unfold mem_expr. rewrite existsb_exists. intros [y [Hy He]]. apply expr_eqb_eq in He. subst. exact Hy.
+Qed.
+
+Section DnfSem.
+  Variable satom : expr -> expr.
+  (* what the theorems need from the simplifier inside atoms: a Boolean value is preserved *)
+  Hypothesis satom_sound : forall sc I a b, bv sc I a = Some b -> bv sc I (satom a) = Some b.
+  Variable sc : bool.
+  Variable I : interp.
+  Notation B := (bv sc I).
+
+  Definition tv (e : expr) : bool := match B e with Some true => true | _ => false end.
+  Definition D (e : expr) : Prop := exists b, B e = Some b.
+  Notation Defd := (Forall D).
+
+  Lemma D_tv e : D e -> B e = Some (tv e).
+  Proof. intros [b H]. unfold tv. rewrite H. destruct b; reflexivity. Qed.
+  Lemma B_tv e b : B e = Some b -> tv e = b.
+  Proof. intros H. unfold tv. rewrite H. destruct b; reflexivity. Qed.
+  Lemma B_D e b : B e = Some b -> D e.
+  Proof. intros H. exists b. exact H. Qed.
+
+  Lemma ebools_defd l : Defd l -> ebools sc I l = Some (map tv l).
+  Proof. induction 1 as [|x l Hx _ IH]; [reflexivity|]. rewrite ebools_cons, (D_tv _ Hx), IH. reflexivity. Qed.
+
+  Lemma ebools_inv l : forall bs, ebools sc I l = Some bs -> Defd l.
+  Proof.
+    induction l as [|x l IH]; intros bs H; [constructor|].
+    rewrite ebools_cons in H. destruct (B x) as [b|] eqn:E; [|discriminate].
+    destruct (ebools sc I l) as [vs|] eqn:E2; [|discriminate].
+    constructor; [exists b; exact E | eapply IH; reflexivity].
+  Qed.
+
+  Lemma B_EAnd_defd l : Defd l -> B (EAnd l) = Some (forallb tv l).
+  Proof. intros H. rewrite bv_EAnd, (ebools_defd _ H). simpl. rewrite forallb_map_id. reflexivity. Qed.
+  Lemma B_EOr_defd l : Defd l -> B (EOr l) = Some (existsb tv l).
+  Proof. intros H. rewrite bv_EOr, (ebools_defd _ H). simpl. rewrite existsb_map_id. reflexivity. Qed.
+
+  Lemma B_EAnd_inv l b : B (EAnd l) = Some b -> Defd l /\ b = forallb tv l.
+  Proof.
+    intros H. assert (Hd : Defd l).
+    { rewrite bv_EAnd in H. destruct (ebools sc I l) as [bs|] eqn:E; [|discriminate]. eapply ebools_inv; exact E. }
+    split; [exact Hd|]. rewrite (B_EAnd_defd _ Hd) in H. inversion H. reflexivity.
+  Qed.
+  Lemma B_EOr_inv l b : B (EOr l) = Some b -> Defd l /\ b = existsb tv l.
+  Proof.
+    intros H. assert (Hd : Defd l).
+    { rewrite bv_EOr in H. destruct (ebools sc I l) as [bs|] eqn:E; [|discriminate]. eapply ebools_inv; exact E. }
+    split; [exact Hd|]. rewrite (B_EOr_defd _ Hd) in H. inversion H. reflexivity.
+  Qed.
+
+  Lemma B_mkAnd_defd l : Defd l -> B (mkAnd l) = Some (forallb tv l).
+  Proof. rewrite bv_mkAnd. apply B_EAnd_defd. Qed.
+  Lemma B_mkOr_defd l : Defd l -> B (mkOr l) = Some (existsb tv l).
+  Proof. rewrite bv_mkOr. apply B_EOr_defd. Qed.
+
+  Lemma tv_true : tv (EBool true) = true.
+  Proof. reflexivity. Qed.
+  Lemma tv_false : tv (EBool false) = false.
+  Proof. reflexivity. Qed.
+
+  (* ---- Simplifier.walk_not *)
+  Lemma neg_of_sem s b : B s = Some b -> B (neg_of s) = Some (negb b).
+  Proof.
+    destruct s; cbn [neg_of]; intros H; try (rewrite bv_ENot, H; reflexivity).
+    - rewrite bv_EBool in *. inversion H. reflexivity.
+    - rewrite bv_ENot in H. destruct (B s) as [c|]; simpl in H; inversion H. rewrite negb_involutive. reflexivity.
+  Qed.
+
+  Lemma simp_lit_sem x b : B x = Some b -> B (simp_lit satom x) = Some b.
+  Proof.
+    destruct x; cbn [simp_lit]; intros H; try (apply satom_sound; exact H).
+    rewrite bv_ENot in H. destruct (B x) as [c|] eqn:E; simpl in H; inversion H.
+    apply satom_sound, neg_of_sem in E. exact E.
+  Qed.
+
+  Lemma map_simp_lit_sem l : Defd l -> Defd (map (simp_lit satom) l) /\ forallb tv (map (simp_lit satom) l) = forallb tv l.
+  Proof.
+    induction 1 as [|x l Hx _ [IH1 IH2]]; [split; [constructor|reflexivity]|].
+    pose proof (simp_lit_sem _ _ (D_tv _ Hx)) as Hs. cbn [map forallb]. split.
+    - constructor; [eapply B_D; exact Hs | exact IH1].
+    - rewrite (B_tv _ _ Hs), IH2. reflexivity.
+  Qed.
+
+  (* ---- Simplifier.walk_and *)
+  Lemma In_forallb_false y l : In y l -> tv y = false -> forallb tv l = false.
+  Proof.
+    induction l as [|x l IH]; intros Hin Hy; [destruct Hin|].
+    cbn [forallb]. destruct Hin as [->|Hin]; [rewrite Hy; reflexivity | rewrite (IH Hin Hy); apply andb_false_r].
+  Qed.
+
+  Lemma In_forallb_absorb s l : In s l -> forallb tv l = tv s && forallb tv l.
+  Proof.
+    intros Hin. destruct (tv s) eqn:E; [reflexivity|]. simpl. eapply In_forallb_false; eauto.
+  Qed.
+
+  Lemma od_add_sem s acc : D s -> Defd acc -> Defd (od_add s acc) /\ forallb tv (od_add s acc) = tv s && forallb tv acc.
+  Proof.
+    intros Hs Ha. unfold od_add. destruct (mem_expr s acc) eqn:E.
+    - split; [exact Ha|]. apply In_forallb_absorb, mem_expr_In, E.
+    - split; [apply Forall_app; split; [exact Ha | constructor; [exact Hs|constructor]]|].
+      rewrite forallb_app. cbn [forallb]. rewrite andb_true_r. apply andb_comm.
+  Qed.
+
+  Lemma add_items_sem items : forall acc, Defd items -> Defd acc ->
+    match add_items items acc with
+    | Some acc' => Defd acc' /\ forallb tv acc' = forallb tv items && forallb tv acc
+    | None => forallb tv items && forallb tv acc = false
+    end.
+  Proof.
+    induction items as [|s r IH]; intros acc Hi Ha; cbn [add_items].
+    - split; [exact Ha|reflexivity].
+    - inversion Hi as [|? ? Hs Hr]; subst. cbn [forallb]. destruct (mem_expr (neg_of s) acc) eqn:E.
+      + apply mem_expr_In in E. destruct (tv s) eqn:Ts; [|reflexivity].
+        pose proof (neg_of_sem _ _ (D_tv _ Hs)) as Hn. rewrite Ts in Hn. apply B_tv in Hn.
+        rewrite (In_forallb_false _ _ E Hn). apply andb_false_r.
+      + destruct (od_add_sem s acc Hs Ha) as [Hd Hv]. specialize (IH (od_add s acc) Hr Hd).
+        destruct (add_items r (od_add s acc)) as [acc'|].
+        * destruct IH as [IH1 IH2]. split; [exact IH1|]. rewrite IH2, Hv.
+          destruct (tv s), (forallb tv r), (forallb tv acc); reflexivity.
+        * rewrite Hv in IH. destruct (tv s), (forallb tv r), (forallb tv acc); simpl in *; congruence.
+  Qed.
+
+  Lemma conj_items_sem a : D a -> Defd (conj_items a) /\ forallb tv (conj_items a) = tv a.
+  Proof.
+    destruct a; cbn [conj_items]; intros Ha;
+      try (split; [constructor; [exact Ha|constructor] | cbn [forallb]; apply andb_true_r]).
+    destruct Ha as [b Hb]. destruct (B_EAnd_inv _ _ Hb) as [Hd Hv]. split; [exact Hd|].
+    rewrite (B_tv _ _ Hb). symmetry. exact Hv.
+  Qed.
+
+  Lemma sand_loop_sem args : forall acc, Defd args -> Defd acc ->
+    match sand_loop args acc with
+    | Some acc' => Defd acc' /\ forallb tv acc' = forallb tv args && forallb tv acc
+    | None => forallb tv args && forallb tv acc = false
+    end.
+  Proof.
+    induction args as [|a r IH]; intros acc Hi Ha; cbn [sand_loop].
+    - split; [exact Ha|reflexivity].
+    - inversion Hi as [|? ? Hda Hr]; subst. cbn [forallb]. destruct (is_true a) eqn:Et.
+      + apply is_true_eq in Et. subst a. rewrite tv_true. exact (IH acc Hr Ha).
+      + destruct (is_false a) eqn:Ef.
+        * apply is_false_eq in Ef. subst a. rewrite tv_false. reflexivity.
+        * destruct (conj_items_sem a Hda) as [Hc Hv]. pose proof (add_items_sem (conj_items a) acc Hc Ha) as HA.
+          destruct (add_items (conj_items a) acc) as [acc'|].
+          -- destruct HA as [HA1 HA2]. specialize (IH acc' Hr HA1). rewrite Hv in HA2.
+             destruct (sand_loop r acc') as [acc''|].
+             ++ destruct IH as [IH1 IH2]. split; [exact IH1|]. rewrite IH2, HA2.
+                destruct (tv a), (forallb tv r), (forallb tv acc); reflexivity.
+             ++ rewrite HA2 in IH. destruct (tv a), (forallb tv r), (forallb tv acc); simpl in *; congruence.
+          -- rewrite Hv in HA. destruct (tv a), (forallb tv r), (forallb tv acc); simpl in *; congruence.
+  Qed.
+
+  Lemma simp_and_general args : Defd args ->
+    B (match sand_loop args [] with
+       | None => EBool false
+       | Some [] => EBool true
+       | Some [x] => x
+       | Some l => EAnd l
+       end) = Some (forallb tv args).
+  Proof.
+    intros H. pose proof (sand_loop_sem args [] H (Forall_nil _)) as HS.
+    destruct (sand_loop args []) as [l|].
+    - destruct HS as [Hd Hv]. cbn [forallb] in Hv. rewrite andb_true_r in Hv. rewrite <- Hv.
+      destruct l as [|x [|y l]].
+      + reflexivity.
+      + inversion Hd; subst. cbn [forallb]. rewrite andb_true_r. apply D_tv. assumption.
+      + apply B_EAnd_defd. exact Hd.
+    - cbn [forallb] in HS. rewrite andb_true_r in HS. rewrite HS. reflexivity.
+  Qed.
+
+  Lemma simp_and_sem args : Defd args -> B (simp_and args) = Some (forallb tv args).
+  Proof.
+    intros H. unfold simp_and. destruct args as [|x [|y [|z r]]]; try (apply simp_and_general; exact H).
+    cbv zeta. destruct (expr_eqb x y) eqn:E; [|apply simp_and_general; exact H].
+    apply expr_eqb_eq in E. subst y. inversion H; subst. cbn [forallb].
+    rewrite (D_tv x) by assumption. destruct (tv x); reflexivity.
+  Qed.
+
+  (* the simplifier on a product conjunction computes the conjunction's value *)
+  Lemma simp_conj_sem big : Defd big -> B (simp_conj satom big) = Some (forallb tv big).
+  Proof.
+    intros H. destruct big as [|x [|y r]].
+    - reflexivity.
+    - inversion H; subst. cbn [simp_conj forallb]. rewrite andb_true_r. apply simp_lit_sem, D_tv. assumption.
+    - unfold simp_conj. destruct (map_simp_lit_sem _ H) as [Hd Hv]. rewrite (simp_and_sem _ Hd), Hv. reflexivity.
+  Qed.
+
+  (* ---- lists of conjunctions *)
+  Definition dv (t : list (list expr)) : bool := existsb (forallb tv) t.
+  Notation DD := (Forall (Forall D)).
+
+  Lemma dv_app t1 t2 : dv (t1 ++ t2) = dv t1 || dv t2.
+  Proof. apply existsb_app. Qed.
+  Lemma dv_cons c t : dv (c :: t) = forallb tv c || dv t.
+  Proof. reflexivity. Qed.
+  Lemma dv_nil : dv [] = false.
+  Proof. reflexivity. Qed.
+
+  Lemma product_cons_sem c P : Defd c -> DD P ->
+    DD (map (fun rest => c ++ rest) P) /\ dv (map (fun rest => c ++ rest) P) = forallb tv c && dv P.
+  Proof.
+    intros Hc. induction 1 as [|x P Hx _ [IH1 IH2]]; cbn [map].
+    - split; [constructor | symmetry; apply andb_false_r].
+    - split; [constructor; [apply Forall_app; split; assumption | exact IH1]|].
+      unfold dv in *. cbn [existsb]. rewrite IH2, forallb_app. symmetry. apply andb_orb_distrib_r.
+  Qed.
+
+  Lemma flat_sem d P : DD d -> DD P ->
+    DD (flat_map (fun c => map (fun rest => c ++ rest) P) d)
+    /\ dv (flat_map (fun c => map (fun rest => c ++ rest) P) d) = dv d && dv P.
+  Proof.
+    intros Hd HP. induction Hd as [|c d Hc _ [IH1 IH2]]; cbn [flat_map].
+    - split; [constructor|reflexivity].
+    - destruct (product_cons_sem c P Hc HP) as [H1 H2]. split; [apply Forall_app; split; assumption|].
+      rewrite dv_app, H2, IH2. unfold dv. cbn [existsb]. symmetry. apply andb_orb_distrib_l.
+  Qed.
+
+  Lemma product_sem args : Forall DD args -> DD (product args) /\ dv (product args) = forallb dv args.
+  Proof.
+    induction 1 as [|d r Hd _ [IH1 IH2]]; cbn [product].
+    - split; [repeat constructor | reflexivity].
+    - destruct (flat_sem d (product r) Hd IH1) as [H1 H2]. split; [exact H1|]. rewrite H2, IH2. reflexivity.
+  Qed.
+
+  Lemma wa_loop_sem tuples : forall res, DD tuples -> DD res ->
+    DD (wa_loop satom tuples res) /\ dv (wa_loop satom tuples res) = dv res || dv tuples.
+  Proof.
+    induction tuples as [|big r IH]; intros res Ht Hr; cbn [wa_loop].
+    - split; [exact Hr | symmetry; apply orb_false_r].
+    - inversion Ht as [|? ? Hb Hrr]; subst. pose proof (simp_conj_sem big Hb) as Hs. cbv zeta.
+      rewrite dv_cons.
+      destruct (is_true (simp_conj satom big)) eqn:Et.
+      + apply is_true_eq in Et. rewrite Et, bv_EBool in Hs. injection Hs as Hv. rewrite <- Hv.
+        split; [repeat constructor | rewrite orb_true_r; reflexivity].
+      + destruct (is_false (simp_conj satom big)) eqn:Ef.
+        * apply is_false_eq in Ef. rewrite Ef, bv_EBool in Hs. injection Hs as Hv. rewrite <- Hv. exact (IH res Hrr Hr).
+        * destruct (conj_items_sem _ (B_D _ _ Hs)) as [Hc Hv]. rewrite (B_tv _ _ Hs) in Hv.
+          assert (Hr' : DD (res ++ [conj_items (simp_conj satom big)])).
+          { apply Forall_app. split; [exact Hr | constructor; [exact Hc | constructor]]. }
+          destruct (IH _ Hrr Hr') as [IH1 IH2]. split; [exact IH1|].
+          rewrite IH2, dv_app, dv_cons, dv_nil, Hv, orb_false_r, orb_assoc. reflexivity.
+  Qed.
+
+  Lemma map_dnf_walk_sem l :
+    Forall (fun e => D e -> DD (dnf_walk satom e) /\ dv (dnf_walk satom e) = tv e) l -> Defd l ->
+    Forall DD (map (dnf_walk satom) l)
+    /\ forallb dv (map (dnf_walk satom) l) = forallb tv l
+    /\ existsb dv (map (dnf_walk satom) l) = existsb tv l.
+  Proof.
+    induction 1 as [|x l Hx _ IH]; intros Hd; [split; [constructor|split; reflexivity]|].
+    inversion Hd as [|? ? Hdx Hdl]; subst. destruct (Hx Hdx) as [H1 H2]. destruct (IH Hdl) as [I1 [I2 I3]].
+    cbn [map forallb existsb]. rewrite H2, I2, I3. split; [constructor; assumption | split; reflexivity].
+  Qed.
+
+  Lemma concat_sem ts : Forall DD ts -> DD (concat ts) /\ dv (concat ts) = existsb dv ts.
+  Proof.
+    induction 1 as [|t ts Ht _ [IH1 IH2]]; cbn [concat existsb].
+    - split; [constructor|reflexivity].
+    - split; [apply Forall_app; split; assumption | rewrite dv_app, IH2; reflexivity].
+  Qed.
+
+  (* the list of conjunctions computed by the Dnf walker has the value of the expression *)
+  Lemma dnf_walk_sem : forall e, D e -> DD (dnf_walk satom e) /\ dv (dnf_walk satom e) = tv e.
+  Proof.
+    induction e using expr_ind'; intros He;
+      try (cbn [dnf_walk]; split; [repeat constructor; exact He | unfold dv; cbn [existsb forallb]; rewrite andb_true_r, orb_false_r; reflexivity]).
+    - destruct He as [b Hb]. destruct (B_EAnd_inv _ _ Hb) as [Hd Hv].
+      destruct (map_dnf_walk_sem l H Hd) as [M1 [M2 _]].
+      cbn [dnf_walk]. unfold walk_and. destruct (product_sem _ M1) as [P1 P2].
+      destruct (wa_loop_sem (product (map (dnf_walk satom) l)) [] P1 (Forall_nil _)) as [W1 W2].
+      split; [exact W1|]. rewrite W2, P2, M2, (B_tv _ _ Hb). simpl. symmetry. exact Hv.
+    - destruct He as [b Hb]. destruct (B_EOr_inv _ _ Hb) as [Hd Hv].
+      destruct (map_dnf_walk_sem l H Hd) as [M1 [_ M3]].
+      cbn [dnf_walk]. destruct (concat_sem _ M1) as [C1 C2].
+      split; [exact C1|]. rewrite C2, M3, (B_tv _ _ Hb). symmetry. exact Hv.
+  Qed.
+
+  Lemma map_mkAnd_sem t : DD t -> Defd (map mkAnd t) /\ existsb tv (map mkAnd t) = dv t.
+  Proof.
+    induction 1 as [|c t Hc _ [IH1 IH2]]; [split; [constructor|reflexivity]|].
+    pose proof (B_mkAnd_defd _ Hc) as Hm. cbn [map existsb]. split.
+    - constructor; [eapply B_D; exact Hm | exact IH1].
+    - unfold dv. cbn [existsb]. rewrite (B_tv _ _ Hm), IH2. reflexivity.
+  Qed.
+
+  (* Dnf.get_dnf_expression keeps the Boolean value of every expression that has one *)
+  Lemma dnf_gen_sem e b : B e = Some b -> B (dnf_gen satom e) = Some b.
+  Proof.
+    intros H. rewrite <- nnf_equiv_bv in H. destruct (dnf_walk_sem (nnf e) (B_D _ _ H)) as [W1 W2].
+    unfold dnf_gen. destruct (map_mkAnd_sem _ W1) as [M1 M2].
+    rewrite (B_mkOr_defd _ M1), M2, W2, (B_tv _ _ H). reflexivity.
+  Qed.
+
+  (* a product conjunction that the simplifier turns into a constant has that constant as its value *)
+  Lemma simp_conj_constant c k : simp_conj satom c = EBool k -> Defd c -> forallb tv c = k.
+  Proof. intros Hk Hd. pose proof (simp_conj_sem c Hd) as Hs. rewrite Hk, bv_EBool in Hs. inversion Hs. reflexivity. Qed.
+
+  Lemma D_mkAnd_inv c : D (mkAnd c) -> Defd c /\ tv (mkAnd c) = forallb tv c.
+  Proof.
+    intros [b Hb]. assert (Hd : Defd c).
+    { rewrite bv_mkAnd in Hb. apply B_EAnd_inv in Hb. apply Hb. }
+    split; [exact Hd|]. apply B_tv, B_mkAnd_defd, Hd.
+  Qed.
+
+  Lemma Defd_replace pre x y post : Defd (pre ++ x :: post) -> D y -> Defd (pre ++ y :: post).
+  Proof.
+    intros H Hy. apply Forall_app in H. destruct H as [H1 H2]. inversion H2; subst.
+    apply Forall_app. split; [exact H1 | constructor; assumption].
+  Qed.
+
+  Lemma Defd_mid pre (x : expr) post : Defd (pre ++ x :: post) -> D x.
+  Proof. intros H. apply Forall_app in H. destruct H as [_ H2]. inversion H2; assumption. Qed.
+
+  Lemma forallb_replace pre x y post : tv x = tv y -> forallb tv (pre ++ x :: post) = forallb tv (pre ++ y :: post).
+  Proof. intros E. rewrite !forallb_app. cbn [forallb]. rewrite E. reflexivity. Qed.
+  Lemma existsb_replace pre x y post : tv x = tv y -> existsb tv (pre ++ x :: post) = existsb tv (pre ++ y :: post).
+  Proof. intros E. rewrite !existsb_app. cbn [existsb]. rewrite E. reflexivity. Qed.
+
+  (* replacing a sub-conjunction by the constant it simplifies to changes neither the value of the expression nor
+     the value of its DNF *)
+  Lemma constant_conjunct_and pre c post k b :
+    simp_conj satom c = EBool k -> B (EAnd (pre ++ mkAnd c :: post)) = Some b ->
+    B (dnf_gen satom (EAnd (pre ++ mkAnd c :: post))) = Some b
+    /\ B (EAnd (pre ++ EBool k :: post)) = Some b
+    /\ B (dnf_gen satom (EAnd (pre ++ EBool k :: post))) = Some b.
+  Proof.
+    intros Hk Hb. assert (H2 : B (EAnd (pre ++ EBool k :: post)) = Some b).
+    { destruct (B_EAnd_inv _ _ Hb) as [Hd Hv]. destruct (D_mkAnd_inv c (Defd_mid _ _ _ Hd)) as [Hc Ht].
+      rewrite (simp_conj_constant c k Hk Hc) in Ht.
+      assert (Dk : D (EBool k)) by (exists k; reflexivity).
+      rewrite (B_EAnd_defd _ (Defd_replace _ _ _ _ Hd Dk)), Hv. f_equal. apply forallb_replace.
+      rewrite Ht. destruct k; reflexivity. }
+    split; [apply dnf_gen_sem; exact Hb | split; [exact H2 | apply dnf_gen_sem; exact H2]].
+  Qed.
+
+  Lemma constant_conjunct_or pre c post k b :
+    simp_conj satom c = EBool k -> B (EOr (pre ++ mkAnd c :: post)) = Some b ->
+    B (dnf_gen satom (EOr (pre ++ mkAnd c :: post))) = Some b
+    /\ B (EOr (pre ++ EBool k :: post)) = Some b
+    /\ B (dnf_gen satom (EOr (pre ++ EBool k :: post))) = Some b.
+  Proof.
+    intros Hk Hb. assert (H2 : B (EOr (pre ++ EBool k :: post)) = Some b).
+    { destruct (B_EOr_inv _ _ Hb) as [Hd Hv]. destruct (D_mkAnd_inv c (Defd_mid _ _ _ Hd)) as [Hc Ht].
+      rewrite (simp_conj_constant c k Hk Hc) in Ht.
+      assert (Dk : D (EBool k)) by (exists k; reflexivity).
+      rewrite (B_EOr_defd _ (Defd_replace _ _ _ _ Hd Dk)), Hv. f_equal. apply existsb_replace.
+      rewrite Ht. destruct k; reflexivity. }
+    split; [apply dnf_gen_sem; exact Hb | split; [exact H2 | apply dnf_gen_sem; exact H2]].
+  Qed.
+End DnfSem.
+
+(* ================================================================== DNF: shape *)
+Lemma atomic_literal a : atomic a = true -> literal a = true.
+Proof. destruct a; try discriminate; intros _; reflexivity. Qed.
+
+Lemma neg_of_lit s : atomic s = true -> literal (neg_of s) = true.
+Proof. destruct s; try discriminate; intros _; reflexivity. Qed.
+
+Lemma literal_conj_items a : literal a = true -> conj_items a = [a].
+Proof. destruct a; try discriminate; intros _; reflexivity. Qed.
+
+Lemma literal_not_and a l : literal a = true -> a <> EAnd l.
+Proof. intros H E. subst. discriminate. Qed.
+
+Section DnfShape.
+  Variable satom : expr -> expr.
+  (* what the shape theorem needs from the simplifier inside atoms: an atom stays an atom (or becomes a constant) *)
+  Hypothesis satom_atomic : forall a, atomic a = true -> atomic (satom a) = true.
+
+  Notation Lit := (fun x : expr => literal x = true).
+  Notation LL := (Forall (Forall Lit)).
+
+  Lemma simp_lit_lit x : literal x = true -> literal (simp_lit satom x) = true.
+  Proof.
+    destruct x; cbn [simp_lit]; intros H; try discriminate;
+      try (apply atomic_literal, satom_atomic; reflexivity).
+    apply neg_of_lit, satom_atomic. exact H.
+  Qed.
+
+  Lemma od_add_lit s acc : Lit s -> Forall Lit acc -> Forall Lit (od_add s acc).
+  Proof.
+    intros Hs Ha. unfold od_add. destruct (mem_expr s acc); [exact Ha|].
+    apply Forall_app. split; [exact Ha | constructor; [exact Hs|constructor]].
+  Qed.
+
+  Lemma add_items_lit items : forall acc acc', Forall Lit items -> Forall Lit acc ->
+    add_items items acc = Some acc' -> Forall Lit acc'.
+  Proof.
+    induction items as [|s r IH]; intros acc acc' Hi Ha; cbn [add_items].
+    - intros E. inversion E. subst. exact Ha.
+    - inversion Hi; subst. destruct (mem_expr (neg_of s) acc); [discriminate|].
+      apply IH; [assumption | apply od_add_lit; assumption].
+  Qed.
+
+  Lemma sand_loop_lit args : forall acc acc', Forall Lit args -> Forall Lit acc ->
+    sand_loop args acc = Some acc' -> Forall Lit acc'.
+  Proof.
+    induction args as [|a r IH]; intros acc acc' Hi Ha; cbn [sand_loop].
+    - intros E. inversion E. subst. exact Ha.
+    - inversion Hi as [|? ? Hla Hr]; subst. destruct (is_true a); [apply IH; assumption|].
+      destruct (is_false a); [discriminate|]. rewrite (literal_conj_items a Hla).
+      destruct (add_items [a] acc) as [acc1|] eqn:E; [|discriminate].
+      apply IH; [assumption|]. eapply add_items_lit; [| |exact E]; [constructor; [exact Hla|constructor] | exact Ha].
+  Qed.
+
+  Lemma simp_and_general_lit args : Forall Lit args ->
+    Forall Lit (conj_items (match sand_loop args [] with
+                            | None => EBool false
+                            | Some [] => EBool true
+                            | Some [x] => x
+                            | Some l => EAnd l
+                            end)).
+  Proof.
+    intros H. destruct (sand_loop args []) as [l|] eqn:E.
+    - pose proof (sand_loop_lit args [] l H (Forall_nil _) E) as Hl.
+      destruct l as [|x [|y l]].
+      + repeat constructor.
+      + inversion Hl; subst. rewrite literal_conj_items by assumption. exact Hl.
+      + exact Hl.
+    - repeat constructor.
+  Qed.
+
+  Lemma simp_and_lit args : Forall Lit args -> Forall Lit (conj_items (simp_and args)).
+  Proof.
+    intros H. unfold simp_and. destruct args as [|x [|y [|z r]]]; try (apply simp_and_general_lit; exact H).
+    cbv zeta. destruct (expr_eqb x y); [|apply simp_and_general_lit; exact H].
+    inversion H; subst. rewrite literal_conj_items by assumption. constructor; [assumption|constructor].
+  Qed.
+
+  Lemma simp_conj_lit big : Forall Lit big -> Forall Lit (conj_items (simp_conj satom big)).
+  Proof.
+    intros H. destruct big as [|x [|y r]].
+    - repeat constructor.
+    - inversion H; subst. cbn [simp_conj]. pose proof (simp_lit_lit x) as Hx.
+      rewrite literal_conj_items by (apply Hx; assumption). constructor; [apply Hx; assumption|constructor].
+    - unfold simp_conj. apply simp_and_lit. apply Forall_forall. intros z Hz. apply in_map_iff in Hz.
+      destruct Hz as [w [<- Hw]]. apply simp_lit_lit. rewrite Forall_forall in H. apply H. exact Hw.
+  Qed.
+
+  Lemma product_lit args : Forall LL args -> LL (product args).
+  Proof.
+    induction 1 as [|d r Hd _ IH]; cbn [product]; [repeat constructor|].
+    apply Forall_forall. intros t Ht. apply in_flat_map in Ht. destruct Ht as [c [Hc Ht]].
+    apply in_map_iff in Ht. destruct Ht as [rest [<- Hrest]].
+    apply Forall_app. split.
+    - rewrite Forall_forall in Hd. apply Hd. exact Hc.
+    - rewrite Forall_forall in IH. apply IH. exact Hrest.
+  Qed.
+
+  Lemma wa_loop_lit tuples : forall res, LL tuples -> LL res -> LL (wa_loop satom tuples res).
+  Proof.
+    induction tuples as [|big r IH]; intros res Ht Hr; cbn [wa_loop]; [exact Hr|].
+    inversion Ht as [|? ? Hb Hrr]; subst. cbv zeta.
+    destruct (is_true (simp_conj satom big)); [repeat constructor|].
+    destruct (is_false (simp_conj satom big)); [apply IH; assumption|].
+    apply IH; [assumption|]. apply Forall_app. split; [exact Hr|].
+    constructor; [apply simp_conj_lit; exact Hb | constructor].
+  Qed.
+
+  Lemma dnf_walk_lit : forall e, nnf_shape e = true -> LL (dnf_walk satom e).
+  Proof.
+    induction e using expr_ind'; intros Hs; try (cbn [dnf_walk]; repeat constructor; exact Hs).
+    - cbn [dnf_walk]. unfold walk_and. apply wa_loop_lit; [|constructor]. apply product_lit.
+      rewrite nnf_shape_EAnd in Hs. rewrite forallb_forall in Hs.
+      apply Forall_forall. intros t Ht. apply in_map_iff in Ht. destruct Ht as [x [<- Hx]].
+      rewrite Forall_forall in H. apply H; [exact Hx | apply Hs; exact Hx].
+    - cbn [dnf_walk]. rewrite nnf_shape_EOr in Hs. rewrite forallb_forall in Hs.
+      apply Forall_forall. intros c Hc. apply in_concat in Hc. destruct Hc as [t [Ht Hc]].
+      apply in_map_iff in Ht. destruct Ht as [x [<- Hx]].
+      rewrite Forall_forall in H. specialize (H x Hx (Hs x Hx)). rewrite Forall_forall in H. apply H. exact Hc.
+  Qed.
+
+  Lemma conj_shape_mkAnd c : Forall Lit c -> conj_shape (mkAnd c) = true.
+  Proof.
+    intros H. destruct c as [|x [|y c]].
+    - reflexivity.
+    - inversion H; subst. cbn [mkAnd]. destruct x; try discriminate; assumption.
+    - cbn [mkAnd conj_shape]. apply forallb_forall. rewrite Forall_forall in H. exact H.
+  Qed.
+
+  Lemma dnf_shape_mkOr l : Forall (fun x => conj_shape x = true) l -> dnf_shape (mkOr l) = true.
+  Proof.
+    intros H. destruct l as [|x [|y l]].
+    - reflexivity.
+    - inversion H; subst. cbn [mkOr]. destruct x; try discriminate; assumption.
+    - cbn [mkOr dnf_shape]. apply forallb_forall. rewrite Forall_forall in H. exact H.
+  Qed.
+
+  (* Dnf.get_dnf_expression returns a disjunction of conjunctions of literals *)
+  Lemma dnf_gen_shape e : dnf_shape (dnf_gen satom e) = true.
+  Proof.
+    unfold dnf_gen. apply dnf_shape_mkOr. apply Forall_forall. intros x Hx.
+    apply in_map_iff in Hx. destruct Hx as [c [<- Hc]]. apply conj_shape_mkAnd.
+    pose proof (dnf_walk_lit (nnf e) (nnf_is_nnf e)) as HL. rewrite Forall_forall in HL. apply HL. exact Hc.
+  Qed.
+End DnfShape.
+
+(* ================================================================== the instance: constant folding of comparisons *)
+Lemma num_const_eval sc I a x : num_const a = Some x -> eval sc a I = Some (VNum x).
+Proof. destruct a; try discriminate; simpl; intros H; inversion H; reflexivity. Qed.
+
+Lemma obj_const_eval sc I a x : obj_const a = Some x -> eval sc a I = Some (VObj x).
+Proof. destruct a; try discriminate; simpl; intros H; inversion H; reflexivity. Qed.
+
+Lemma simp_atom_atomic a : atomic a = true -> atomic (simp_atom a) = true.
+Proof.
+  destruct a; try discriminate; intros _; try reflexivity; cbn [simp_atom].
+  - destruct (num_const a1), (num_const a2); reflexivity.
+  - destruct (num_const a1), (num_const a2); reflexivity.
+  - destruct (num_const a1), (num_const a2), (obj_const a1), (obj_const a2), (expr_eqb a1 a2); reflexivity.
+Qed.
+
+Lemma bv_EEquals_refl sc I a b : bv sc I (EEquals a a) = Some b -> b = true.
+Proof.
+  unfold bv. rewrite eval_EEquals. destruct (eval sc a I) as [[x|x|x]|]; simpl; intros H; try discriminate;
+    inversion H; [apply qc_eqb_refl | apply N.eqb_refl].
+Qed.
+
+Lemma simp_atom_sound sc I a b : bv sc I a = Some b -> bv sc I (simp_atom a) = Some b.
+Proof.
+  destruct a; try (intros H; exact H); cbn [simp_atom].
+  - destruct (num_const a1) as [x|] eqn:E1; [|trivial]. destruct (num_const a2) as [y|] eqn:E2; [|trivial].
+    unfold bv. rewrite eval_ELe, (num_const_eval _ _ _ _ E1), (num_const_eval _ _ _ _ E2). trivial.
+  - destruct (num_const a1) as [x|] eqn:E1; [|trivial]. destruct (num_const a2) as [y|] eqn:E2; [|trivial].
+    unfold bv. rewrite eval_ELt, (num_const_eval _ _ _ _ E1), (num_const_eval _ _ _ _ E2). trivial.
+  - assert (Hrest : bv sc I (EEquals a1 a2) = Some b ->
+                    bv sc I (match obj_const a1, obj_const a2 with
+                             | Some x, Some y => EBool (x =? y)%N
+                             | _, _ => if expr_eqb a1 a2 then EBool true else EEquals a1 a2
+                             end) = Some b).
+    { assert (Heq : bv sc I (EEquals a1 a2) = Some b ->
+                    bv sc I (if expr_eqb a1 a2 then EBool true else EEquals a1 a2) = Some b).
+      { destruct (expr_eqb a1 a2) eqn:E; [|trivial]. apply expr_eqb_eq in E. subst a2.
+        intros H. apply bv_EEquals_refl in H. subst b. reflexivity. }
+      destruct (obj_const a1) as [x|] eqn:O1; [|exact Heq]. destruct (obj_const a2) as [y|] eqn:O2; [|exact Heq].
+      unfold bv. rewrite eval_EEquals, (obj_const_eval _ _ _ _ O1), (obj_const_eval _ _ _ _ O2). trivial. }
+    destruct (num_const a1) as [x|] eqn:E1; [|exact Hrest]. destruct (num_const a2) as [y|] eqn:E2; [|exact Hrest].
+    unfold bv. rewrite eval_EEquals, (num_const_eval _ _ _ _ E1), (num_const_eval _ _ _ _ E2). trivial.
+Qed.
+
+(* ================================================================== closed statements about [dnf] = dnf_gen simp_atom *)
+Lemma dnf_equiv sc e I b : eval sc e I = Some (VBool b) -> eval sc (dnf e) I = Some (VBool b).
+Proof. rewrite <- !bv_Some. apply dnf_gen_sem. intros; apply simp_atom_sound; assumption. Qed.
+
+Lemma dnf_is_dnf e : dnf_shape (dnf e) = true.
+Proof. apply dnf_gen_shape. exact simp_atom_atomic. Qed.
+
+(* ---- the propositional reading of the shapes *)
+Lemma literal_Literal x : literal x = true -> Literal x.
+Proof.
+  destruct x; intros H; try discriminate; try (left; reflexivity).
+  right. exists x. split; [reflexivity|exact H].
+Qed.
+
+Lemma nnf_shape_NNF : forall e, nnf_shape e = true -> NNF e.
+Proof.
+  induction e using expr_ind'; intros Hs; try discriminate; try (apply NNF_atom; reflexivity).
+  - apply NNF_and. rewrite nnf_shape_EAnd, forallb_forall in Hs. rewrite Forall_forall in *. intros x Hx. apply H; auto.
+  - apply NNF_or. rewrite nnf_shape_EOr, forallb_forall in Hs. rewrite Forall_forall in *. intros x Hx. apply H; auto.
+  - apply NNF_neg. exact Hs.
+Qed.
+
+Lemma conj_shape_Conj c : conj_shape c = true -> Conj c.
+Proof.
+  destruct c; intros H; try (left; apply literal_Literal; exact H).
+  right. exists l. split; [reflexivity|]. cbn [conj_shape] in H. rewrite forallb_forall in H.
+  apply Forall_forall. intros x Hx. apply literal_Literal, H, Hx.
+Qed.
+
+Lemma dnf_shape_DNF d : dnf_shape d = true -> DNF d.
+Proof.
+  destruct d; intros H; try (left; apply conj_shape_Conj; exact H).
+  right. exists l. split; [reflexivity|]. cbn [dnf_shape] in H. rewrite forallb_forall in H.
+  apply Forall_forall. intros x Hx. apply conj_shape_Conj, H, Hx.
+Qed.
+
+Lemma nnf_is_NNF e : NNF (nnf e).
+Proof. apply nnf_shape_NNF, nnf_is_nnf. Qed.
+
+Lemma dnf_is_DNF e : DNF (dnf e).
+Proof. apply dnf_shape_DNF, dnf_is_dnf. Qed.
+
+(* ---- statements in terms of [eval] for Props/C12.v *)
+Lemma dnf_gen_equiv (satom : expr -> expr) :
+  (forall sc I a b, eval sc a I = Some (VBool b) -> eval sc (satom a) I = Some (VBool b)) ->
+  forall sc e I b, eval sc e I = Some (VBool b) -> eval sc (dnf_gen satom e) I = Some (VBool b).
+Proof.
+  intros Hs sc e I b. rewrite <- !bv_Some. apply dnf_gen_sem.
+  intros sc' I' a b'. rewrite !bv_Some. apply Hs.
+Qed.
+
+Lemma dnf_gen_is_dnf (satom : expr -> expr) :
+  (forall a, atomic a = true -> atomic (satom a) = true) -> forall e, dnf_shape (dnf_gen satom e) = true.
+Proof. intros Hs e. apply dnf_gen_shape. exact Hs. Qed.
+
+Lemma simp_atom_sound' : forall sc I a b, bv sc I a = Some b -> bv sc I (simp_atom a) = Some b.
+Proof. intros; apply simp_atom_sound; assumption. Qed.
+
+Lemma dnf_constant_conjunct_and sc I pre c post k b :
+  simp_conj simp_atom c = EBool k ->
+  eval sc (EAnd (pre ++ mkAnd c :: post)) I = Some (VBool b) ->
+  eval sc (dnf (EAnd (pre ++ mkAnd c :: post))) I = Some (VBool b)
+  /\ eval sc (EAnd (pre ++ EBool k :: post)) I = Some (VBool b)
+  /\ eval sc (dnf (EAnd (pre ++ EBool k :: post))) I = Some (VBool b).
+Proof. rewrite <- !bv_Some. apply constant_conjunct_and. exact simp_atom_sound'. Qed.
+
+Lemma dnf_constant_conjunct_or sc I pre c post k b :
+  simp_conj simp_atom c = EBool k ->
+  eval sc (EOr (pre ++ mkAnd c :: post)) I = Some (VBool b) ->
+  eval sc (dnf (EOr (pre ++ mkAnd c :: post))) I = Some (VBool b)
+  /\ eval sc (EOr (pre ++ EBool k :: post)) I = Some (VBool b)
+  /\ eval sc (dnf (EOr (pre ++ EBool k :: post))) I = Some (VBool b).
+Proof. rewrite <- !bv_Some. apply constant_conjunct_or. exact simp_atom_sound'. Qed.
+
+(* a conjunction of (defined) literals that simplifies to the constant k has the value k under every interpretation *)
+Lemma constant_conjunct_value sc I c k :
+  simp_conj simp_atom c = EBool k ->
+  (forall x, In x c -> exists b, eval sc x I = Some (VBool b)) ->
+  eval sc (mkAnd c) I = Some (VBool k).
+Proof.
+  intros Hk Hd. assert (Hc : Forall (D sc I) c).
+  { apply Forall_forall. intros x Hx. destruct (Hd x Hx) as [b Hb]. exists b. apply bv_Some. exact Hb. }
+  apply bv_Some. rewrite (B_mkAnd_defd sc I c Hc). f_equal.
+  exact (simp_conj_constant simp_atom simp_atom_sound' sc I c k Hk Hc).
+Qed.
